@@ -1,27 +1,133 @@
-//! Example contracts of /repo compiled into the harness from the working tree.
+//! Example contracts of /repo compiled into the harness from the working tree
+//! (the example crates are cdylib-only; their contract.rs files are self-contained).
 #![allow(dead_code, unused_imports, clippy::all)]
 
 pub mod fungible_pausable {
     #[path = "/repo/examples/fungible-pausable/src/contract.rs"]
     pub mod contract;
 }
+
 pub mod fungible_allowlist {
     #[path = "/repo/examples/fungible-allowlist/src/contract.rs"]
     pub mod contract;
 }
+
 pub mod fungible_blocklist {
     #[path = "/repo/examples/fungible-blocklist/src/contract.rs"]
     pub mod contract;
 }
+
 pub mod fungible_capped {
     #[path = "/repo/examples/fungible-capped/src/contract.rs"]
     pub mod contract;
 }
+
 pub mod fungible_votes {
     #[path = "/repo/examples/fungible-votes/src/contract.rs"]
     pub mod contract;
 }
+
 pub mod fungible_vault {
     #[path = "/repo/examples/fungible-vault/src/contract.rs"]
+    pub mod contract;
+}
+
+pub mod fungible_merkle_airdrop {
+    #[path = "/repo/examples/fungible-merkle-airdrop/src/contract.rs"]
+    pub mod contract;
+}
+
+pub mod merkle_voting {
+    #[path = "/repo/examples/merkle-voting/src/contract.rs"]
+    pub mod contract;
+}
+
+pub mod pausable {
+    #[path = "/repo/examples/pausable/src/contract.rs"]
+    pub mod contract;
+}
+
+pub mod ownable {
+    #[path = "/repo/examples/ownable/src/contract.rs"]
+    pub mod contract;
+}
+
+pub mod nft_access_control {
+    #[path = "/repo/examples/nft-access-control/src/contract.rs"]
+    pub mod contract;
+}
+
+pub mod nft_sequential_minting {
+    #[path = "/repo/examples/nft-sequential-minting/src/contract.rs"]
+    pub mod contract;
+}
+
+pub mod nft_enumerable {
+    #[path = "/repo/examples/nft-enumerable/src/contract.rs"]
+    pub mod contract;
+}
+
+pub mod nft_consecutive {
+    #[path = "/repo/examples/nft-consecutive/src/contract.rs"]
+    pub mod contract;
+}
+
+pub mod nft_royalties {
+    #[path = "/repo/examples/nft-royalties/src/contract.rs"]
+    pub mod contract;
+}
+
+pub mod timelock_controller {
+    #[path = "/repo/examples/timelock-controller/src/contract.rs"]
+    pub mod contract;
+}
+
+pub mod fee_forwarder_permissioned {
+    #[path = "/repo/examples/fee-forwarder-permissioned/src/contract.rs"]
+    pub mod contract;
+}
+
+pub mod fee_forwarder_permissionless {
+    #[path = "/repo/examples/fee-forwarder-permissionless/src/contract.rs"]
+    pub mod contract;
+}
+
+pub mod multisig_account {
+    #[path = "/repo/examples/multisig-smart-account/account/src/contract.rs"]
+    pub mod contract;
+}
+
+pub mod threshold_policy {
+    #[path = "/repo/examples/multisig-smart-account/threshold-policy/src/contract.rs"]
+    pub mod contract;
+}
+
+pub mod spending_limit_policy {
+    #[path = "/repo/examples/multisig-smart-account/spending-limit-policy/src/contract.rs"]
+    pub mod contract;
+}
+
+pub mod ed25519_verifier {
+    #[path = "/repo/examples/multisig-smart-account/ed25519-verifier/src/contract.rs"]
+    pub mod contract;
+}
+
+pub mod webauthn_verifier {
+    #[path = "/repo/examples/multisig-smart-account/webauthn-verifier/src/contract.rs"]
+    pub mod contract;
+}
+
+pub mod upgradeable_v1 {
+    #[path = "/repo/examples/upgradeable/v1/src/contract.rs"]
+    pub mod contract;
+}
+
+pub mod upgradeable_v2 {
+    #[path = "/repo/examples/upgradeable/v2/src/contract.rs"]
+    pub mod contract;
+}
+
+pub mod upgradeable_upgrader {
+    #[path = "/repo/examples/upgradeable/upgrader/src/contract.rs"]
     pub mod contract;
 }
